@@ -29,15 +29,16 @@ N = 3
 OFF = rs.offdiag_positions(N)
 UP = rs.upper_positions(N)
 
+# imaginary parts include the diagonal: a general complex matrix ('c...') has complex diagonal entries, also on decoupled dofs
 VALS = [
     (np.array([[4.0, 0.7, -1.1], [0.5, 5.0, 0.9], [-0.6, 1.3, 6.0]]),
-     np.array([[0.0, 0.4, 0.3], [-0.2, 0.0, 0.8], [0.5, -0.7, 0.0]])),
+     np.array([[0.6, 0.4, 0.3], [-0.2, -0.5, 0.8], [0.5, -0.7, 0.7]])),
     (np.array([[5.0, -0.9, 0.6], [1.2, 4.5, -0.4], [0.8, -1.0, 7.0]]),
-     np.array([[0.0, -0.5, 0.7], [0.3, 0.0, -0.6], [-0.9, 0.2, 0.0]])),
+     np.array([[-0.4, -0.5, 0.7], [0.3, 0.8, -0.6], [-0.9, 0.2, 0.5]])),
     (np.array([[3.5, 1.1, 0.4], [-0.8, 6.0, 1.2], [0.9, 0.3, 4.0]]),
-     np.array([[0.0, 0.6, -0.2], [0.7, 0.0, 0.5], [-0.3, -0.8, 0.0]])),
+     np.array([[0.9, 0.6, -0.2], [0.7, -0.3, 0.5], [-0.3, -0.8, -0.6]])),
     (np.array([[6.0, 0.2, -0.7], [-1.3, 3.8, 0.5], [0.4, 0.9, 5.5]]),
-     np.array([[0.0, -0.3, 0.9], [0.6, 0.0, -0.4], [0.2, 0.7, 0.0]])),
+     np.array([[-0.7, -0.3, 0.9], [0.6, 0.4, -0.4], [0.2, 0.7, 0.8]])),
 ]
 RHS_TAB = [
     (np.array([1.0, -2.0, 0.5]), np.array([0.3, 0.9, -1.4])),
